@@ -15,7 +15,7 @@
                          every RemoveMatch(r) when it is
    quiescent c           no queued removal, every future finished *)
 From Coq Require Import List NArith Bool Arith.
-From ZV Require Import Base.Bytes C37.Model C37.Spec C37.Proofs C37.Sched C37.Witness.
+From ZV Require Import Base.Bytes C37.Model C37.Spec C37.Proofs C37.Sched C37.Witness C37.Check C37.CheckFacts.
 Import ListNotations.
 Open Scope nat_scope.
 
@@ -93,6 +93,22 @@ Theorem C37_scheduler_sound : forall allowed l c c',
   run_choices allowed l c = Some c' -> steps allowed c c'.
 Proof. exact run_choices_steps. Qed.
 Print Assumptions C37_scheduler_sound.
+
+(* the counter arithmetic of the per-rule trace checker (C37/Check.v) is that of add_match / remove_match on the entry
+   concerned; other entries are untouched (so the search can be done rule by rule) *)
+Theorem C37_checker_add : forall r s es,
+  fst (add_match r s es) r = fst (add1 (s r)) /\
+  snd (add_match r s es) = es ++ (if snd (add1 (s r)) then sig_ev r (EAdd r) else []) /\
+  forall x, x <> r -> fst (add_match r s es) x = s x.
+Proof. exact add1_is_add_match. Qed.
+Print Assumptions C37_checker_add.
+
+Theorem C37_checker_remove : forall r s es,
+  fst (remove_match r s es) r = fst (rem1 (s r)) /\
+  snd (remove_match r s es) = es ++ (if snd (rem1 (s r)) then sig_ev r (ERem r) else []) /\
+  forall x, x <> r -> fst (remove_match r s es) x = s x.
+Proof. exact rem1_is_remove_match. Qed.
+Print Assumptions C37_checker_remove.
 
 (* non-vacuity: 3 streams (one on a non-signal rule), a proxy whose two signal streams are created concurrently so that
    both futures pass the OnceLock check (the raced branch), a queued and a foreground removal; then everything dropped *)
